@@ -2,7 +2,7 @@ SPECIFICATION Spec
 CONSTANTS
   MaxN = 4
   Names = {"a", "b"}
-  MaxDepth = 2
+  MaxDepth = 3
 INVARIANT Inv
 PROPERTY Terminates
 CHECK_DEADLOCK FALSE
